@@ -219,18 +219,15 @@ def infeasible_otherwise(db, b, bi):
     return None
 
 
-def caller_guard(db, b, key, bi):
-    """interprocedural typestate: the unwrapped place is a field path of a parameter, the function does not disturb it before the unwrap,
-    the function cannot be called from outside the crate, and every call site passes an argument whose same field path is definitely Some/Ok"""
-    if key[0] != 1 and not (1 <= key[0] <= b.argc):
-        return None
+def _param_of_site(db, b, key):
+    """(function, parameter index, field path below the parameter) for a place rooted at a parameter - of the function itself or, for the
+    coroutine body of an `async fn`, of the function that builds the coroutine"""
     if b.kind == "Closure":
-        # coroutine body of an `async fn`: upvar i is parameter j of the parent function
         f = db.bodies.get(b.parent)
-        if f is None or f.kind not in ("Fn", "AssocFn") or not key[1]:
+        if f is None or f.kind not in ("Fn", "AssocFn") or not key[1] or key[0] != 1:
             return None
         aggs = [st for _, _, st in f.stmts() if st["rv"]["k"] == "agg" and st["rv"].get("agg") in ("coroutine", "closure") and st["rv"].get("def") == b.name]
-        if len(aggs) != 1 or len(list(f.live_blocks())) > 2 or key[0] != 1:
+        if len(aggs) != 1 or len(list(f.live_blocks())) > 2:
             return None
         ops = aggs[0]["rv"]["ops"]
         if key[1][0] >= len(ops):
@@ -238,32 +235,67 @@ def caller_guard(db, b, key, bi):
         p = flow.op_place(ops[key[1][0]])
         if p is None or p["proj"] or not (1 <= p["l"] <= f.argc):
             return None
-        j, rest = p["l"], key[1][1:]
-    else:
-        f, j, rest = b, key[0], key[1]
-    if not rest or f.name in db.reachable_fns or f.raw.get("impl_trait"):
-        return None
-    if not optstate.definitely_good(b, key, bi, entry=True):
-        return None
-    callers = db.callers_of(f.name)
-    if not callers:
-        return None
-    # the function must not escape as a value
+        return f, p["l"], key[1][1:]
+    if 1 <= key[0] <= b.argc:
+        return b, key[0], key[1]
+    return None
+
+
+def _escapes(db, f):
     for cb in db.grep(f.name):
         for _, t in cb.calls():
             if any(isinstance(a, dict) and a.get("c") == "fn" and a.get("def") == f.name for a in t["args"]):
-                return None
+                return True
         for _, _, st in cb.stmts():
             if any(isinstance(o, dict) and o.get("c") == "fn" and o.get("def") == f.name for o in st["rv"]["ops"]):
-                return None
+                return True
+    return False
+
+
+def _callers_establish(db, f, j, rest, depth, trail):
+    """every call site of f passes, as argument j, a value whose field path `rest` is definitely Some/Ok at the call - directly, or because
+    the calling function received it in that state from all of its own callers (up to 3 levels)"""
+    if not rest or f.name in db.reachable_fns or f.raw.get("impl_trait") or depth > 3 or f.name in trail or _escapes(db, f):
+        return 0
+    callers = db.callers_of(f.name)
+    if not callers:
+        return 0
+    n = 0
     for cb, cbi, t in callers:
         if len(t["args"]) < j:
-            return None
+            return 0
         k0 = optstate.place_key(cb, t["args"][j - 1])
-        if k0 is None or not optstate.definitely_good(cb, (k0[0], k0[1] + rest), cbi):
-            return None
-    return "typestate: every one of the %d call sites of %s passes a receiver whose field is Some/Ok at the call, and nothing disturbs it before the unwrap" % (
-        len(callers), f.name.replace("s3s::", ""))
+        if k0 is None:
+            return 0
+        k = (k0[0], k0[1] + rest)
+        if optstate.definitely_good(cb, k, cbi):
+            n += 1
+            continue
+        # not established inside the caller: does the caller receive it established and leave it alone up to the call?
+        ps = _param_of_site(db, cb, k)
+        if ps is None or not optstate.definitely_good(cb, k, cbi, entry=True):
+            return 0
+        m = _callers_establish(db, ps[0], ps[1], ps[2], depth + 1, trail + (f.name,))
+        if not m:
+            return 0
+        n += m
+    return n
+
+
+def caller_guard(db, b, key, bi):
+    """interprocedural typestate: the unwrapped place is a field path of a parameter, the function does not disturb it before the unwrap,
+    the function cannot be called from outside the crate, and every call site passes an argument whose same field path is definitely Some/Ok"""
+    ps = _param_of_site(db, b, key)
+    if ps is None:
+        return None
+    f, j, rest = ps
+    if not rest or not optstate.definitely_good(b, key, bi, entry=True):
+        return None
+    n = _callers_establish(db, f, j, rest, 0, ())
+    if not n:
+        return None
+    return "typestate: at each of the %d call sites leading to %s the receiver's field is Some/Ok, and nothing disturbs it before the unwrap" % (
+        n, f.name.replace("s3s::", ""))
 
 
 _IV = {}
